@@ -151,12 +151,16 @@ impl Prop for C09 {
                 }
                 ops.push(Op::Press(codes[*k]));
             }
-            ops.push(Op::Gap((t + 30 + r.range(0, 20)) as u32));
+            // held past the timeout, or released early (the chord is then decided by the release)
+            let early = r.chance(350);
+            let hold = if early { r.range(1, t.saturating_sub(total + 2).max(1).min(12)) } else { t + 30 + r.range(0, 20) };
+            ops.push(Op::Gap(hold as u32));
             let mut rel = set.clone();
             r.shuffle(&mut rel);
+            let long_between = r.chance(400);
             for k in rel {
                 ops.push(Op::Release(codes[k]));
-                ops.push(Op::Gap(r.range(0, 8) as u32));
+                ops.push(Op::Gap(if long_between { r.range(20, 60) + t } else { r.range(0, 8) } as u32));
             }
             if on_disabled {
                 ops.push(Op::Gap(20));
@@ -307,6 +311,11 @@ impl Prop for C09 {
                         let slack = 8 + 2 * set.len() as u64;
                         if m_rel > last_rel + slack {
                             o.set_fail("C09:chord-released-late", format!("chord marker {want} released at {m_rel}, last participant released at {last_rel}: {}", outs_short(&outs)), vec![]);
+                        }
+                        if !v2 && m_rel < last_rel {
+                            // documented release behaviour of defchords for plain-key actions: held
+                            // until every key of the chord has been released
+                            o.set_fail("C09:v1-chord-released-before-all-participants", format!("defchords chord {want} (keys {ks:?}): last participant released at {last_rel}, marker released at {m_rel}: {}", outs_short(&outs)), vec![]);
                         }
                         if v2 {
                             let idx = table.iter().position(|(k2, _)| k2 == ks).unwrap_or(0);
